@@ -16,15 +16,7 @@ namespace Verif.Props.C09
 open Verif.Wmpt
 
 /-- total weight = sum of the weights of the live entries -/
-theorem weight_sum (t : PT) : t.weight = entriesWeight t.entries := by
-  induction t with
-  | none => rfl
-  | value v w => simp [PT.weight, PT.entries, entriesWeight]
-  | short k c ih => simp [PT.weight, PT.entries, entriesWeight_prepend, ih]
-  | branch ch ih =>
-    simp only [PT.weight, PT.entries, entriesWeight_flatMap, entriesWeight_prepend]
-    congr 1
-    exact List.map_congr_left (fun i _ => ih i)
+theorem weight_sum (t : PT) : t.weight = entriesWeight t.entries := weight_eq_entriesWeight t
 
 /-- what `ownerSpec` means: the owner of block `b` is the entry `e` such that the entries before it weigh less than
     `b` and, together with `e`, at least `b` -/
@@ -56,33 +48,6 @@ theorem ownerSpec_iff (es : List Entry) (b : Nat) (hb : 1 ≤ b) (k v : Bytes) :
     simp only [this, if_false, ownerSpec]
     have : b - entriesWeight pre ≤ w := by omega
     simp [this]
-
-private theorem pick_spec (ch : Nib → PT) (ih : ∀ i b, 1 ≤ b → b ≤ (ch i).weight → (ch i).owner b = ownerSpec (ch i).entries b)
-    (is : List Nib) (b : Nat) (hb : 1 ≤ b) :
-    ownerSpec (is.flatMap (fun i => ((ch i).entries).map (Entry.prepend [nb i]))) b =
-      match PT.pick ch is b with
-      | none => none
-      | some (i, b') => ((ch i).owner b').map (fun r => (nb i :: r.1, r.2)) := by
-  induction is generalizing b with
-  | nil => simp [PT.pick, ownerSpec]
-  | cons i tl ihl =>
-    simp only [List.flatMap_cons]
-    rw [ownerSpec_append _ _ _ hb, entriesWeight_prepend, ← weight_sum]
-    unfold PT.pick
-    by_cases hn : (ch i).isNone
-    · -- an absent child has no entries and weight 0
-      have hw : (ch i).weight = 0 := by
-        cases h : ch i <;> simp_all [PT.isNone, PT.weight]
-      have : ¬ b ≤ 0 := by omega
-      simp only [hn, if_true, hw, this, if_false, Nat.sub_zero]
-      exact ihl b hb
-    · simp only [hn]
-      by_cases hle : b ≤ (ch i).weight
-      · simp only [hle, if_true]
-        rw [ownerSpec_prepend, ih i b hb hle]
-        simp
-      · simp only [hle, if_false]
-        exact ihl _ (by omega)
 
 /-- the weight-ordered descent reaches, for every block number 1..total, the entry whose cumulative-weight interval
     in key order contains it -/
